@@ -63,6 +63,18 @@ pub fn generate(rng: &mut Rng, thorough: bool) -> Vec<String> {
             v.push(format!("w19_zdt_until {z} {ns} {ns2} {l}"));
             v.push(format!("w19_zdt_since {z} {ns} {ns2} {l}"));
         }
+        // differences with a smallest unit, every rounding mode (since() negates the mode before rounding) and increments
+        for _ in 0..2 {
+            let ns3 = ns + rng.range(-3, 3) * 86_400_000_000_000 + rng.range(-86_399_999_999_999, 86_399_999_999_999);
+            let (l, sm) = *rng.pick(&[("hour", "hour"), ("-", "hour"), ("day", "hour"), ("hour", "minute"), ("year", "day"), ("month", "day"), ("-", "second"), ("day", "day"), ("week", "day")]);
+            let inc = *rng.pick(&[1i128, 1, 2, 3, 5, 6, 10, 15]);
+            let md = *rng.pick(&MODES);
+            v.push(format!("w19_zdt_diff {z} {ns} {ns3} until {l} {sm} {md} {inc}"));
+            v.push(format!("w19_zdt_diff {z} {ns} {ns3} since {l} {sm} {md} {inc}"));
+        }
+        if rng.chance(1, 4) {
+            v.push(format!("w19_now {z} {}", rng.pick(&["datetime", "date", "time"])));
+        }
         v.push(format!("w19_zdt_wpt {z} {ns} {} {} {}", rng.range(0, 23), rng.range(0, 59), rng.range(0, 59)));
         v.push(format!("w19_zdt_ixdtf {z} {ns} {} {} {} {}", rng.pick(&["auto", "never"]), rng.pick(&["auto", "never", "critical"]), rng.pick(&["auto", "always", "never", "critical"]), rng.pick(&["-", "minute", "second", "millisecond"])));
         v.push(format!("w19_zdt_parse {z} {ns} {} {}", rng.pick(&["compatible", "earlier", "later", "reject"]), rng.pick(&["use", "prefer", "ignore", "reject"])));
@@ -181,6 +193,68 @@ pub fn eval(t: &[&str]) -> Option<String> {
             let a = ZonedDateTime::try_new(i(t[2]), Calendar::default(), tz(t[1])).ok()?;
             let b = ZonedDateTime::try_new(i(t[3]).clamp(-8_640_000_000_000_000_000_000, 8_640_000_000_000_000_000_000), Calendar::default(), tz(t[1])).ok()?;
             if t[0] == "w19_zdt_until" { cmp(a.until(&b, settings(t[4])), a.until_with_provider(&b, settings(t[4]), &p)) } else { cmp(a.since(&b, settings(t[4])), a.since_with_provider(&b, settings(t[4]), &p)) }
+        }
+        "w19_zdt_diff" => {
+            let a = ZonedDateTime::try_new(i(t[2]), Calendar::default(), tz(t[1])).ok()?;
+            let b = ZonedDateTime::try_new(i(t[3]).clamp(-8_640_000_000_000_000_000_000, 8_640_000_000_000_000_000_000), Calendar::default(), tz(t[1])).ok()?;
+            let mk = || {
+                let mut o = DifferenceSettings::default();
+                o.largest_unit = opt_unit(t[5]);
+                o.smallest_unit = opt_unit(t[6]);
+                o.rounding_mode = opt_mode(t[7]);
+                o.increment = RoundingIncrement::try_new(i(t[8]) as u32).ok();
+                o
+            };
+            if t[4] == "until" { cmp(a.until(&b, mk()), a.until_with_provider(&b, mk(), &p)) } else { cmp(a.since(&b, mk()), a.since_with_provider(&b, mk(), &p)) }
+        }
+        "w19_now" => {
+            // the wrapper reads the clock itself: its answer must lie between the core's answers for clock readings
+            // taken just before and just after the call
+            use temporal_rs::time::EpochNanoseconds;
+            use temporal_rs::Now;
+            let clock = || std::time::SystemTime::now().duration_since(std::time::UNIX_EPOCH).map(|d| d.as_nanos() as i128).unwrap_or(0);
+            let zone = tz(t[1]);
+            let en = |x: i128| EpochNanoseconds::try_from(x).ok();
+            match t[2] {
+                "datetime" => {
+                    let t0 = clock();
+                    let w = Now::plain_datetime_iso(Some(zone.clone()));
+                    let t1 = clock();
+                    let lo = Now::plain_datetime_iso_with_provider_and_system_info(en(t0)?, zone.clone(), &p);
+                    let hi = Now::plain_datetime_iso_with_provider_and_system_info(en(t1)?, zone.clone(), &p);
+                    match (w, lo, hi) {
+                        (Ok(w), Ok(lo), Ok(hi)) => if lo.compare_iso(&w) != std::cmp::Ordering::Greater && w.compare_iso(&hi) != std::cmp::Ordering::Greater { "ok same".into() } else { format!("ok differ {w:?} | {lo:?} .. {hi:?}") },
+                        (w, lo, _) => cmp(w, lo),
+                    }
+                }
+                "date" => {
+                    let t0 = clock();
+                    let w = Now::plain_date_iso(Some(zone.clone()));
+                    let t1 = clock();
+                    let lo = Now::plain_date_iso_with_provider_and_system_info(en(t0)?, zone.clone(), &p);
+                    let hi = Now::plain_date_iso_with_provider_and_system_info(en(t1)?, zone.clone(), &p);
+                    match (w, lo, hi) {
+                        (Ok(w), Ok(lo), Ok(hi)) => if lo.compare_iso(&w) != std::cmp::Ordering::Greater && w.compare_iso(&hi) != std::cmp::Ordering::Greater { "ok same".into() } else { format!("ok differ {w:?} | {lo:?} .. {hi:?}") },
+                        (w, lo, _) => cmp(w, lo),
+                    }
+                }
+                _ => {
+                    let key = |x: &PlainTime| (x.hour(), x.minute(), x.second(), x.millisecond(), x.microsecond(), x.nanosecond());
+                    let t0 = clock();
+                    let w = Now::plain_time_iso(Some(zone.clone()));
+                    let t1 = clock();
+                    let lo = Now::plain_time_iso_with_provider_and_system_info(en(t0)?, zone.clone(), &p);
+                    let hi = Now::plain_time_iso_with_provider_and_system_info(en(t1)?, zone.clone(), &p);
+                    match (w, lo, hi) {
+                        (Ok(w), Ok(lo), Ok(hi)) => {
+                            let (a, x, b) = (key(&lo), key(&w), key(&hi));
+                            let inside = if a <= b { a <= x && x <= b } else { x >= a || x <= b };
+                            if inside { "ok same".into() } else { format!("ok differ {w:?} | {lo:?} .. {hi:?}") }
+                        }
+                        (w, lo, _) => cmp(w, lo),
+                    }
+                }
+            }
         }
         "w19_zdt_wpt" => {
             let z = ZonedDateTime::try_new(i(t[2]), Calendar::default(), tz(t[1])).ok()?;
